@@ -211,6 +211,8 @@ void h_desc_recency(void) {
   /* two distinct tables that both contain user key u */
   ASSUME(in_num_a != in_num_b);
   ASSUME(in_min_a <= in_max_a && in_min_b <= in_max_b);
+  ASSUME(in_max_a < (1ull << 56) && in_max_b < (1ull << 56) && in_min_a >= 1 && in_min_b >= 1);   /* sequence numbers are 56-bit, from 1 */
+  ASSUME(in_num_a < (1ull << 32) && in_num_b < (1ull << 32) && in_num_a >= 2 && in_num_b >= 2);
   ASSUME(in_max_a < in_min_b || in_max_b < in_min_a);            /* disjoint: each (u, seq) is stored once */
   g_tab[0].meta.number = in_num_a; g_tab[1].meta.number = in_num_b;
   ASSUME(g_tab[0].max_sequence >= in_max_a && g_tab[1].max_sequence >= in_max_b);   /* scan_table: max over all keys of the table */
